@@ -601,6 +601,287 @@ theorem netStoich_mul_arrayRate (c : σ → R) (r : Reaction σ R) (s : σ) :
   unfold arrayRate contribution netStoich
   ring
 
+/-! ### success / refusal of the array path -/
+
+theorem indexOf?_eq_none_iff {keys : List σ} {s : σ} : indexOf? keys s = none ↔ s ∉ keys := by
+  induction keys with
+  | nil => simp [indexOf?]
+  | cons k t ih =>
+    unfold indexOf?
+    by_cases hk : k = s
+    · simp [hk]
+    · have : ¬ s = k := fun e => hk e.symm
+      simp [hk, this, ih]
+
+/-- a reactant can be looked up: it is a substance and its index lies inside `conc` -/
+def Reachable (conc : List R) (keys : List σ) (k : σ) : Prop := ∃ i, indexOf? keys k = some i ∧ i < conc.length
+
+theorem concOf_of_index {keys : List σ} {conc : List R} {k : σ} {i : ℕ} (hi : indexOf? keys k = some i) (hlt : i < conc.length) :
+    conc[i]? = some (concOf keys conc k) := by
+  unfold concOf
+  rw [hi]
+  simp [List.getD_eq_getElem?_getD, List.getElem?_eq_getElem hlt]
+
+theorem lawRateAux_ok_of_reachable (conc : List R) (keys : List σ) (reac : List (σ × ℕ))
+    (h : ∀ k ∈ dkeys reac, Reachable conc keys k) (acc : R) :
+    lawRateAux conc keys reac acc = .ok (acc * concProd (concOf keys conc) reac) := by
+  induction reac generalizing acc with
+  | nil => simp [lawRateAux, concProd]
+  | cons p t ih =>
+    obtain ⟨k, v⟩ := p
+    obtain ⟨i, hi, hlt⟩ := h k (by simp [dkeys])
+    unfold lawRateAux
+    simp only [hi, concOf_of_index hi hlt]
+    rw [ih (fun k' hk' => h k' (by simp only [dkeys, List.map_cons, List.mem_cons] at hk' ⊢; exact Or.inr hk'))]
+    simp [concProd, npow_eq, mul_assoc]
+
+/-- what a failure of the inner loop means -/
+theorem lawRateAux_error (conc : List R) (keys : List σ) (reac : List (σ × ℕ)) (acc : R) {e : Err}
+    (h : lawRateAux conc keys reac acc = .error e) :
+    (e = .valueError ∧ ∃ k ∈ dkeys reac, k ∉ keys) ∨
+      (e = .indexError ∧ ∃ k ∈ dkeys reac, ∃ i, indexOf? keys k = some i ∧ conc.length ≤ i) := by
+  induction reac generalizing acc with
+  | nil => simp [lawRateAux] at h
+  | cons p t ih =>
+    obtain ⟨k, v⟩ := p
+    unfold lawRateAux at h
+    cases hi : indexOf? keys k with
+    | none =>
+      rw [hi] at h
+      simp only [Except.error.injEq] at h
+      exact Or.inl ⟨h.symm, k, by simp [dkeys], indexOf?_eq_none_iff.mp hi⟩
+    | some i =>
+      rw [hi] at h
+      simp only at h
+      cases hc : conc[i]? with
+      | none =>
+        rw [hc] at h
+        simp only [Except.error.injEq] at h
+        exact Or.inr ⟨h.symm, k, by simp [dkeys], i, hi, List.getElem?_eq_none_iff.mp hc⟩
+      | some x =>
+        rw [hc] at h
+        simp only at h
+        rcases ih _ h with ⟨he, k', hk', hn⟩ | ⟨he, k', hk', i', hi', hl'⟩
+        · exact Or.inl ⟨he, k', by simp only [dkeys, List.map_cons, List.mem_cons] at hk' ⊢; exact Or.inr hk', hn⟩
+        · exact Or.inr ⟨he, k', by simp only [dkeys, List.map_cons, List.mem_cons] at hk' ⊢; exact Or.inr hk', i', hi', hl'⟩
+
+theorem not_reachable_of {conc : List R} {keys : List σ} {k : σ}
+    (h : k ∉ keys ∨ ∃ i, indexOf? keys k = some i ∧ conc.length ≤ i) : ¬ Reachable conc keys k := by
+  rintro ⟨i, hi, hlt⟩
+  rcases h with h | ⟨i', hi', hl⟩
+  · rw [indexOf?_eq_none_iff.mpr h] at hi; cases hi
+  · rw [hi] at hi'; cases hi'; omega
+
+/-- **success characterisation of `list(law_of_mass_action_rates(conc, rsys))`** (plain parameters) -/
+theorem lawOfMassActionRates_ok_iff (conc : List R) (keys : List σ) (rs : List (Reaction σ R)) (xs : List R) :
+    lawOfMassActionRates conc keys rs = .ok xs ↔
+      (∀ r ∈ rs, ∀ k ∈ dkeys r.reac, Reachable conc keys k) ∧ xs = rs.map (arrayRate (concOf keys conc)) := by
+  induction rs generalizing xs with
+  | nil => simp [lawOfMassActionRates, eq_comm]
+  | cons r t ih =>
+    unfold lawOfMassActionRates lawRate
+    by_cases hr : ∀ k ∈ dkeys r.reac, Reachable conc keys k
+    · rw [lawRateAux_ok_of_reachable conc keys r.reac hr]
+      simp only [Nat.cast_one, one_mul]
+      cases ht : lawOfMassActionRates conc keys t with
+      | error e =>
+        simp only [reduceCtorEq, false_iff, not_and]
+        intro hall
+        have := (ih (t.map (arrayRate (concOf keys conc)))).mpr ⟨fun r' hr' => hall r' (List.mem_cons_of_mem _ hr'), rfl⟩
+        rw [ht] at this; cases this
+      | ok ys =>
+        have hy := (ih ys).mp ht
+        simp only [Except.ok.injEq, List.mem_cons, forall_eq_or_imp, List.map_cons]
+        constructor
+        · rintro rfl
+          exact ⟨⟨hr, hy.1⟩, by rw [hy.2]; rfl⟩
+        · rintro ⟨_, rfl⟩
+          rw [hy.2]; rfl
+    · have hne : ∀ x, lawRateAux conc keys r.reac ((1 : ℕ) : R) ≠ .ok x := by
+        intro x hx
+        apply hr
+        intro k hk
+        by_contra hnr
+        -- success of the loop implies reachability of every reactant
+        have : ∀ (reac : List (σ × ℕ)) (acc x : R), lawRateAux conc keys reac acc = .ok x → ∀ k ∈ dkeys reac, Reachable conc keys k := by
+          intro reac
+          induction reac with
+          | nil => intro _ _ _ k hk; simp [dkeys] at hk
+          | cons p t' ih' =>
+            obtain ⟨k0, v0⟩ := p
+            intro acc x hx k hk
+            unfold lawRateAux at hx
+            cases hi : indexOf? keys k0 with
+            | none => rw [hi] at hx; cases hx
+            | some i =>
+              rw [hi] at hx
+              simp only at hx
+              cases hc : conc[i]? with
+              | none => rw [hc] at hx; cases hx
+              | some y =>
+                rw [hc] at hx
+                simp only [dkeys, List.map_cons, List.mem_cons] at hk
+                rcases hk with rfl | hk
+                · exact ⟨i, hi, (List.getElem?_eq_some_iff.mp hc).1⟩
+                · exact ih' _ _ hx k (by simpa [dkeys] using hk)
+        exact hnr (this r.reac _ x hx k hk)
+      cases hl : lawRateAux conc keys r.reac ((1 : ℕ) : R) with
+      | ok x => exact absurd hl (hne x)
+      | error e =>
+        simp only [reduceCtorEq, false_iff, not_and, List.mem_cons, forall_eq_or_imp]
+        intro hall
+        exact absurd hall.1 hr
+
+/-- **what a refusal means**: `ValueError` names a reactant that is no substance, `IndexError` a substance beyond a short
+    `conc`; no other exception occurs -/
+theorem lawOfMassActionRates_error (conc : List R) (keys : List σ) (rs : List (Reaction σ R)) {e : Err}
+    (h : lawOfMassActionRates conc keys rs = .error e) :
+    (e = .valueError ∧ ∃ r ∈ rs, ∃ k ∈ dkeys r.reac, k ∉ keys) ∨
+      (e = .indexError ∧ ∃ r ∈ rs, ∃ k ∈ dkeys r.reac, ∃ i, indexOf? keys k = some i ∧ conc.length ≤ i) := by
+  induction rs with
+  | nil => simp [lawOfMassActionRates] at h
+  | cons r t ih =>
+    unfold lawOfMassActionRates lawRate at h
+    cases hl : lawRateAux conc keys r.reac ((1 : ℕ) : R) with
+    | error e' =>
+      rw [hl] at h
+      simp only [Except.error.injEq] at h
+      subst h
+      rcases lawRateAux_error conc keys r.reac _ hl with ⟨he, k, hk, hn⟩ | ⟨he, k, hk, i, hi, hlen⟩
+      · exact Or.inl ⟨he, r, by simp, k, hk, hn⟩
+      · exact Or.inr ⟨he, r, by simp, k, hk, i, hi, hlen⟩
+    | ok x =>
+      rw [hl] at h
+      simp only at h
+      cases ht : lawOfMassActionRates conc keys t with
+      | ok ys => rw [ht] at h; cases h
+      | error e' =>
+        rw [ht] at h
+        simp only [Except.error.injEq] at h
+        subst h
+        rcases ih ht with ⟨he, r', hr', rest⟩ | ⟨he, r', hr', rest⟩
+        · exact Or.inl ⟨he, r', List.mem_cons_of_mem _ hr', rest⟩
+        · exact Or.inr ⟨he, r', List.mem_cons_of_mem _ hr', rest⟩
+
+
+theorem dCdtEntry_ok_iff (s : σ) (rs : List (Reaction σ R)) (rates : List R) (acc : R) :
+    (∃ x, dCdtEntry s rs rates acc = .ok x) ↔ rs.length ≤ rates.length := by
+  induction rs generalizing rates acc with
+  | nil => simp [dCdtEntry]
+  | cons r t ih =>
+    cases rates with
+    | nil => simp [dCdtEntry]
+    | cons x xs => simp only [dCdtEntry, ih, List.length_cons, Nat.add_le_add_iff_right]
+
+theorem dCdtEntry_error (s : σ) (rs : List (Reaction σ R)) (rates : List R) (acc : R) {e : Err}
+    (h : dCdtEntry s rs rates acc = .error e) : e = .indexError := by
+  induction rs generalizing rates acc with
+  | nil => simp [dCdtEntry] at h
+  | cons r t ih =>
+    cases rates with
+    | nil => simp only [dCdtEntry, Except.error.injEq] at h; exact h.symm
+    | cons x xs => simp only [dCdtEntry] at h; exact ih _ _ h
+
+/-- `dCdt_list` succeeds iff there is no substance or `rates` is at least as long as the reaction list; the only failure is
+    the `IndexError` of `rates[idx_r]` -/
+theorem dCdtList_ok_iff (keys : List σ) (rs : List (Reaction σ R)) (rates : List R) :
+    ((∃ xs, dCdtList keys rs rates = .ok xs) ↔ keys = [] ∨ rs.length ≤ rates.length) ∧
+      (∀ e, dCdtList keys rs rates = .error e → e = .indexError) := by
+  induction keys with
+  | nil => simp [dCdtList]
+  | cons s t ih =>
+    unfold dCdtList
+    cases he : dCdtEntry s rs rates ((0 : ℕ) : R) with
+    | error e =>
+      have hn : ¬ rs.length ≤ rates.length := fun hle => by
+        obtain ⟨x, hx⟩ := (dCdtEntry_ok_iff s rs rates ((0 : ℕ) : R)).mpr hle
+        rw [he] at hx; cases hx
+      refine ⟨by simp [hn], ?_⟩
+      intro e' h'
+      simp only [Except.error.injEq] at h'
+      rw [← h']; exact dCdtEntry_error s rs rates _ he
+    | ok x =>
+      have hle : rs.length ≤ rates.length := (dCdtEntry_ok_iff s rs rates _).mp ⟨x, he⟩
+      cases ht : dCdtList t rs rates with
+      | error e =>
+        exfalso
+        have := ih.1.mpr (Or.inr hle)
+        rw [ht] at this
+        obtain ⟨_, h⟩ := this
+        cases h
+      | ok ys => simp [hle]
+
+
+/-! ### the `MassAction` branch agrees with the plain branch -/
+theorem zip_eq_map_concOf (keys : List σ) (conc : List R) (hnd : keys.Nodup) (hlen : conc.length = keys.length) :
+    keys.zip conc = keys.map fun k => (k, concOf keys conc k) := by
+  induction keys generalizing conc with
+  | nil => simp
+  | cons k t ih =>
+    cases conc with
+    | nil => simp at hlen
+    | cons x xs =>
+      rw [List.nodup_cons] at hnd
+      simp only [List.zip_cons_cons, List.map_cons]
+      have h0 : concOf (k :: t) (x :: xs) k = x := by simp [concOf, indexOf?]
+      rw [h0, ih xs hnd.2 (by simpa using hlen)]
+      congr 1
+      apply List.map_congr_left
+      intro k' hk'
+      have hne : ¬ k = k' := fun e => hnd.1 (e ▸ hk')
+      obtain ⟨i, hi, _⟩ := indexOf?_of_mem hk'
+      simp [concOf, indexOf?, hne, hi]
+
+theorem concProd_congr (c c' : σ → R) (reac : List (σ × ℕ)) (h : ∀ k ∈ dkeys reac, c k = c' k) :
+    concProd c reac = concProd c' reac := by
+  unfold concProd
+  congr 1
+  apply List.map_congr_left
+  intro p hp
+  rw [h p.1 (List.mem_map_of_mem (f := Prod.fst) hp)]
+
+/-- the `MassAction` branch of `law_of_mass_action_rates` agrees with the plain branch on well-formed input -/
+theorem lawRateMassAction_eq (keys : List σ) (conc : List R) (hnd : keys.Nodup) (hlen : conc.length = keys.length)
+    (r : Reaction σ R) (h : ∀ k ∈ dkeys r.reac, k ∈ keys) :
+    lawRateMassAction conc keys r = lawRate conc keys r := by
+  have hz : dictOf (keys.zip conc) = keys.map fun k => (k, concOf keys conc k) := by
+    rw [zip_eq_map_concOf keys conc hnd hlen, dictOf_map_of_nodup keys _ hnd]
+  have hget : ∀ k ∈ keys, dgetD (dictOf (keys.zip conc)) k ((0 : ℕ) : R) = concOf keys conc k := by
+    intro k hk
+    unfold dgetD
+    rw [zip_eq_map_concOf keys conc hnd hlen, dget?_dictOf_map, if_pos hk]
+  have hmiss : missingVars (dictOf (keys.zip conc)) (dkeys r.reac) = none := by
+    unfold missingVars
+    rw [List.find?_eq_none]
+    intro k hk
+    have : k ∈ dkeys (dictOf (keys.zip conc)) := by
+      rw [hz]; simpa [dkeys, Function.comp_def] using h k hk
+    simp [dmem_iff.mpr this]
+  unfold lawRateMassAction
+  simp only [hmiss]
+  rw [lawRate_eq hlen r h]
+  congr 1
+  unfold massAction arrayRate
+  rw [activeConcProd_eq, concProd_congr _ (concOf keys conc) r.reac (fun k hk => hget k (h k hk)), mul_comm]
+
+theorem lawOfMassActionRatesK_massAction (keys : List σ) (conc : List R) (hnd : keys.Nodup) (hlen : conc.length = keys.length)
+    (rs : List (Reaction σ R)) (kinds : List ParamKind) (hk : kinds.length = rs.length)
+    (hkind : ∀ kd ∈ kinds, kd = .plain ∨ kd = .massAction) (h : ∀ r ∈ rs, ∀ k ∈ dkeys r.reac, k ∈ keys) :
+    lawOfMassActionRatesK conc keys (rs.zip kinds) = lawOfMassActionRates conc keys rs := by
+  induction rs generalizing kinds with
+  | nil => simp [lawOfMassActionRatesK, lawOfMassActionRates]
+  | cons r t ih =>
+    cases kinds with
+    | nil => simp at hk
+    | cons kd ks =>
+      simp only [List.zip_cons_cons, lawOfMassActionRatesK, lawOfMassActionRates]
+      have hrest := ih ks (by simpa using hk) (fun kd' hkd' => hkind kd' (List.mem_cons_of_mem _ hkd'))
+        (fun r' hr' => h r' (List.mem_cons_of_mem _ hr'))
+      rcases hkind kd (by simp) with rfl | rfl
+      · simp only [hrest]
+      · simp only [hrest, lawRateMassAction_eq keys conc hnd hlen r (h r (by simp))]
+
+
 end ArrayPath
 
 /-! ## Part 4: compositions and balance -/
@@ -883,6 +1164,53 @@ theorem compositionBalanceVectors_eq (subs : Substances σ A) (h : firstWithoutC
   rw [balanceRows_eq subs h]
 
 end Balance
+
+/-! ### the balance check ignores rate parameters -/
+section BalanceCongr
+variable {σ ρ ρ' : Type} [DecidableEq σ] {A : Type} [CommRing A]
+
+/-- the balance check reads a reaction only through its net stoichiometry -/
+theorem violationEntry_congr {r : Reaction σ ρ} {r' : Reaction σ ρ'} (h : ∀ s, netStoich r s = netStoich r' s) (key : ℤ)
+    (subs : Substances σ A) (acc : A) : violationEntry r key subs acc = violationEntry r' key subs acc := by
+  induction subs generalizing acc with
+  | nil => rfl
+  | cons hd t ih =>
+    obtain ⟨k, oc⟩ := hd
+    cases oc with
+    | none => rfl
+    | some c => simp only [violationEntry, h, ih]
+
+theorem violationList_congr {r : Reaction σ ρ} {r' : Reaction σ ρ'} (h : ∀ s, netStoich r s = netStoich r' s)
+    (subs : Substances σ A) (ck : List ℤ) : violationList r subs ck = violationList r' subs ck := by
+  induction ck with
+  | nil => rfl
+  | cons key t ih => simp only [violationList, violationEntry_congr h, ih]
+
+theorem compositionViolation_congr {r : Reaction σ ρ} {r' : Reaction σ ρ'} (h : ∀ s, netStoich r s = netStoich r' s)
+    (subs : Substances σ A) (ck? : Option (List ℤ)) : compositionViolation r subs ck? = compositionViolation r' subs ck? := by
+  cases subs with
+  | nil => rfl
+  | cons hd t => simp only [compositionViolation, violationList_congr h]
+
+variable [DecidableEq A]
+
+theorem checkRxns_congr {γ : Type} (f : γ → Reaction σ ρ) (g : γ → Reaction σ ρ')
+    (h : ∀ x s, netStoich (f x) s = netStoich (g x) s) (subs : Substances σ A) (l : List γ) (idx : ℕ) :
+    checkRxns subs (l.map f) idx = checkRxns subs (l.map g) idx := by
+  induction l generalizing idx with
+  | nil => rfl
+  | cons x t ih => simp only [List.map_cons, checkRxns, compositionViolation_congr (h x), ih]
+
+/-- `check_balance` does not look at rate parameters: two reaction lists with the same stoichiometry get the same verdict -/
+theorem checkBalance_congr {γ : Type} (f : γ → Reaction σ ρ) (g : γ → Reaction σ ρ')
+    (h : ∀ x s, netStoich (f x) s = netStoich (g x) s) (subs : Substances σ A) (l : List γ) (strict : Bool) :
+    checkBalance subs (l.map f) strict = checkBalance subs (l.map g) strict := by
+  unfold checkBalance
+  cases firstWithoutComposition subs with
+  | some s => rfl
+  | none => exact checkRxns_congr f g h subs l 0
+
+end BalanceCongr
 
 /-! ### conservation: `B · f(c) = 0` -/
 section Invariant
@@ -1232,5 +1560,165 @@ theorem elimExpr_congr (row y0 y y' : ℕ → K) (ny idx : ℕ) (h : ∀ di, di 
   rw [e]
 
 end Elim
+
+
+/-! ## Round 11: specifications of small helpers -/
+section Round11
+variable {σ : Type} [DecidableEq σ] {A : Type} [CommRing A]
+
+theorem mem_foldl_insertKey_skip (skip : List ℤ) (c : Comp A) (acc : List ℤ) (x : ℤ) :
+    x ∈ c.foldl (fun a kv => if skip.contains kv.1 then a else insertKey kv.1 a) acc ↔
+      x ∈ acc ∨ (x ∈ dkeys c ∧ x ∉ skip) := by
+  induction c generalizing acc with
+  | nil => simp [dkeys]
+  | cons h t ih =>
+    simp only [List.foldl_cons, ih, dkeys, List.map_cons, List.mem_cons]
+    by_cases hs : skip.contains h.1 = true
+    · have hm : h.1 ∈ skip := by simpa using hs
+      simp only [hs, if_true]
+      constructor
+      · rintro (h1 | h1)
+        · exact Or.inl h1
+        · exact Or.inr ⟨Or.inr h1.1, h1.2⟩
+      · rintro (h1 | ⟨h1 | h1, h2⟩)
+        · exact Or.inl h1
+        · exact absurd (h1 ▸ hm) h2
+        · exact Or.inr ⟨h1, h2⟩
+    · have hm : h.1 ∉ skip := by simpa using hs
+      simp only [hs, if_false, mem_insertKey, Bool.false_eq_true]
+      constructor
+      · rintro ((h1 | h1) | h1)
+        · exact Or.inr ⟨Or.inl h1, h1 ▸ hm⟩
+        · exact Or.inl h1
+        · exact Or.inr ⟨Or.inr h1.1, h1.2⟩
+      · rintro (h1 | ⟨h1 | h1, h2⟩)
+        · exact Or.inl (Or.inr h1)
+        · exact Or.inl (Or.inl h1)
+        · exact Or.inr ⟨h1, h2⟩
+
+/-- `Substance.composition_keys(substances, skip_keys)`: exactly the composition keys that are not skipped -/
+theorem mem_compositionKeysSkipping (skip : List ℤ) (subs : Substances σ A) (x : ℤ) :
+    x ∈ compositionKeysSkipping skip subs ↔ x ∈ compositionKeys subs ∧ x ∉ skip := by
+  have aux : ∀ (acc : List ℤ), x ∈ subs.foldl (fun acc s => addCompKeysSkipping skip acc s.2) acc ↔
+      x ∈ acc ∨ ((∃ sc ∈ subs, ∃ c, sc.2 = some c ∧ x ∈ dkeys c) ∧ x ∉ skip) := by
+    induction subs with
+    | nil => intro acc; simp
+    | cons h t ih =>
+      intro acc
+      obtain ⟨k, oc⟩ := h
+      simp only [List.foldl_cons, ih, List.mem_cons, exists_eq_or_imp]
+      cases oc with
+      | none => simp [addCompKeysSkipping]
+      | some c =>
+        simp only [addCompKeysSkipping, mem_foldl_insertKey_skip, Option.some.injEq, exists_eq_left']
+        tauto
+  rw [mem_compositionKeys]
+  unfold compositionKeysSkipping
+  rw [aux []]
+  simp
+
+/-- `linear_dependencies(preferred)` refuses exactly: an empty list, a list at least as long as the substance list, an unknown key -/
+theorem checkPreferred_eq_false_iff (pref : List σ) (keys : List σ) :
+    checkPreferred (some pref) keys = false ↔ pref = [] ∨ keys.length ≤ pref.length ∨ ∃ k ∈ pref, k ∉ keys := by
+  unfold checkPreferred
+  simp only [Bool.and_eq_false_iff, Bool.not_eq_false', List.isEmpty_iff, decide_eq_false_iff_not, Nat.not_lt,
+    List.all_eq_false, List.contains_iff_mem, decide_eq_false_iff_not]
+  constructor
+  · rintro ((h | h) | ⟨k, hk, hn⟩)
+    · exact Or.inl h
+    · exact Or.inr (Or.inl h)
+    · exact Or.inr (Or.inr ⟨k, hk, by simpa using hn⟩)
+  · rintro (h | h | ⟨k, hk, hn⟩)
+    · exact Or.inl (Or.inl h)
+    · exact Or.inl (Or.inr h)
+    · exact Or.inr ⟨k, hk, by simpa using hn⟩
+
+end Round11
+
+section Round11b
+variable {σ : Type} [DecidableEq σ] {R : Type} [CommRing R]
+
+theorem missingVars_eq_none_iff (vars : List (σ × R)) (needed : List σ) :
+    missingVars vars needed = none ↔ ∀ k ∈ needed, k ∈ dkeys vars := by
+  unfold missingVars
+  rw [List.find?_eq_none]
+  constructor
+  · intro h k hk
+    have := h k hk
+    simpa [dmem_iff] using this
+  · intro h k hk
+    simp [dmem_iff.mpr (h k hk)]
+
+theorem rateDict_eq_none_iff (vars : List (σ × R)) (r : Reaction σ R) (keys : List σ) :
+    rateDict vars r keys = none ↔ ∃ k ∈ dkeys r.reac, k ∉ dkeys vars := by
+  unfold rateDict
+  cases h : missingVars vars (dkeys r.reac) with
+  | none =>
+    have := (missingVars_eq_none_iff vars _).mp h
+    simp only [reduceCtorEq, false_iff, not_exists, not_and, not_not]
+    exact this
+  | some k =>
+    simp only [true_iff]
+    by_contra hc
+    simp only [not_exists, not_and, not_not] at hc
+    rw [(missingVars_eq_none_iff vars _).mpr hc] at h
+    cases h
+
+/-- **Named rate constants feed the rate.** -/
+theorem rateDictP_spec (vars : List (σ × R)) (p : Param σ R) (r : Reaction σ R) (keys : List σ) :
+    (rateDictP vars p r keys = none ↔
+        (∃ name, p = .key name ∧ name ∉ dkeys vars) ∨ ∃ k ∈ dkeys r.reac, k ∉ dkeys vars) ∧
+      (∀ d, rateDictP vars p r keys = some d →
+        ∃ k, (p = .const k ∨ ∃ name, p = .key name ∧ dget? vars name = some k) ∧
+          d = rxnRateOf (k * activeConcProd (fun s => dgetD vars s 0) r) r keys) := by
+  unfold rateDictP
+  cases p with
+  | const k =>
+    simp only [resolveParam]
+    constructor
+    · rw [rateDict_eq_none_iff]
+      simp
+    · intro d hd
+      refine ⟨k, Or.inl rfl, ?_⟩
+      unfold rateDict at hd
+      cases hm : missingVars vars (dkeys r.reac) with
+      | some _ => rw [hm] at hd; cases hd
+      | none =>
+        rw [hm] at hd
+        simp only [Option.some.injEq] at hd
+        rw [← hd]
+        simp [rxnRate, rxnRateOf, massAction, activeConcProd, netStoich]
+  | key name =>
+    simp only [resolveParam]
+    cases hg : dget? vars name with
+    | none =>
+      have : name ∉ dkeys vars := dget?_eq_none_iff.mp hg
+      simp only [true_iff]
+      exact ⟨Or.inl ⟨name, rfl, this⟩, fun d hd => by cases hd⟩
+    | some k =>
+      have hin : name ∈ dkeys vars := by
+        by_contra hn
+        rw [dget?_eq_none_iff.mpr hn] at hg; cases hg
+      constructor
+      · rw [rateDict_eq_none_iff]
+        constructor
+        · intro h; exact Or.inr h
+        · rintro (⟨n, hn, hnot⟩ | h)
+          · cases hn; exact absurd hin hnot
+          · exact h
+      · intro d hd
+        refine ⟨k, Or.inr ⟨name, rfl, hg⟩, ?_⟩
+        dsimp only at hd
+        unfold rateDict at hd
+        dsimp only at hd
+        cases hm : missingVars vars (dkeys r.reac) with
+        | some _ => rw [hm] at hd; cases hd
+        | none =>
+          rw [hm] at hd
+          simp only [Option.some.injEq] at hd
+          rw [← hd]
+          simp [rxnRate, rxnRateOf, massAction, activeConcProd, netStoich]
+
+end Round11b
 
 end ChemModel.Kinetics
